@@ -243,7 +243,7 @@ def eval_forward(c, rec):
         rec.finding('fwd/option-encoding', 'issuer-keyid', c, '')
 
 
-REF_KINDS = ['doc', 'text', 'standalone', 'timestamp', 'cert-10', 'cert-13', 'cert-ua', 'direct', 'bind', 'rev-key', 'rev-subkey', 'rev-uid', 'pkbind']
+REF_KINDS = ['doc', 'text', 'standalone', 'timestamp', 'cert-10', 'cert-13', 'cert-ua', 'direct', 'bind', 'rev-key', 'rev-subkey', 'rev-uid', 'pkbind', 'rev-direct']
 
 
 def eval_backward(c, rec):
@@ -294,6 +294,9 @@ def eval_backward(c, rec):
     elif label == 'cert-ua':
         ua = wire.sub_len_encode(len(sigkit.JPEG) + 17) + b'\x01' + b'\x10\x00\x01\x01' + bytes(12) + sigkit.JPEG
         t.kind, t.tprimary, t.uid_kind, t.uid_data, st_ = 'cert', tpub.body, 'ua', ua, 0x12
+    elif label == 'rev-direct':
+        # a 0x30 signature that revokes a direct-key (0x1F) signature on another key: computed over that key alone
+        t.kind, t.tprimary, st_ = 'key', tpub.body, 0x30
     elif label in ('direct', 'rev-key'):
         t.kind, t.tprimary, st_ = 'key', (tpub.body if label == 'direct' else pub.body), 0x1F if label == 'direct' else 0x20
     elif label in ('bind', 'rev-subkey'):
@@ -331,6 +334,10 @@ def eval_backward(c, rec):
                 rec.finding('bwd/pgpy-rejects', 'in-message', c, '')
         elif t.kind == 'cert':
             blob = wire.build_packet(6, t.tprimary) + wire.build_packet(13 if t.uid_kind == 'uid' else 17, t.uid_data) + wire.build_packet(2, t.sig)
+            if not t.pg_verifier().verify(keypool.pgpy_key(blob)):
+                rec.finding('bwd/pgpy-rejects', 'in-key/' + label, c, '')
+        elif label in ('direct', 'rev-direct'):
+            blob = wire.build_packet(6, t.tprimary) + wire.build_packet(2, t.sig) + wire.build_packet(13, b'Someone <s@example.org>')
             if not t.pg_verifier().verify(keypool.pgpy_key(blob)):
                 rec.finding('bwd/pgpy-rejects', 'in-key/' + label, c, '')
     except Exception as e:   # noqa
